@@ -162,6 +162,7 @@ type call struct {
 	rrTurn   bool
 	keyBound *refSlot // binding of the key when the pick started (nil: unknown key)
 	reqList  bool
+	reqNil   bool
 }
 
 type poolWorld struct {
@@ -810,6 +811,8 @@ func (w *poolWorld) doPick(args []string) {
 			cancellable = true
 		case f == "el":
 			c.hasG, c.reqList = true, true
+		case f == "gn":
+			c.hasG, c.reqNil = true, true
 		case strings.HasPrefix(f, "d"):
 			var n int
 			fmt.Sscanf(f[1:], "%d", &n)
@@ -827,11 +830,14 @@ func (w *poolWorld) doPick(args []string) {
 		if c.reqList {
 			req = &reqListMsg{}
 		}
+		if c.reqNil {
+			req = nil // interceptor context present, but no request message
+		}
 		c.gctx = &gcpContext{reqMsg: req}
 		ctx = context.WithValue(ctx, gcpKey, c.gctx)
 	}
 	c.ctx = ctx
-	if c.hasG && !c.reqList && (cmd == "bound" || cmd == "unbind") && key != "" {
+	if c.hasG && !c.reqList && !c.reqNil && (cmd == "bound" || cmd == "unbind") && key != "" {
 		c.keyBound = w.bind[key]
 	}
 	if _, real := c.pub.picker.(*gcpPicker); cmd == "bind" && w.cfg.RR && real && len(c.pub.ready) > 0 {
@@ -1299,7 +1305,7 @@ func (w *poolWorld) doDone(i int, outcome string) {
 				}
 			}
 		case "unbind":
-			if !c.reqList {
+			if !c.reqList && !c.reqNil {
 				if _, ok := w.bind[c.key]; ok {
 					delete(w.bind, c.key)
 					delete(w.standin, c.key)
